@@ -30,6 +30,7 @@ type mutant struct {
 	// behaviour-preserving variants (selftest/benign): the check must stay silent
 	Func      string            `json:"func"`       // text that starts the function declaration, e.g. "func (t *Trie) delete("
 	Rename    map[string]string `json:"rename"`     // local identifiers renamed inside that function
+	SwapEq    bool              `json:"swap_eq"`    // mirror every comparison with simple operands (a < b becomes b > a)
 	RenameAll bool              `json:"rename_all"` // rename every local variable, parameter and named result of the function(s) named in Funcs
 	Funcs     []string          `json:"funcs"`      // function / method names (rename_all)
 }
@@ -133,6 +134,13 @@ func runMutants(c *Ctx) {
 func applyBenign(src string, m mutant) (string, string) {
 	if m.RenameAll {
 		out, err := renameAllLocals(src, m.Funcs)
+		if err != nil {
+			return "", err.Error()
+		}
+		src = out
+	}
+	if m.SwapEq {
+		out, err := swapComparisons(src)
 		if err != nil {
 			return "", err.Error()
 		}
@@ -270,6 +278,106 @@ func runBenign(c *Ctx) {
 	}
 }
 
+// runSeeds replays the confirmed seeded changes kept under /verif/seeded (each was demonstrated to break the property
+// while compiling and passing the existing tests) through the overlay: the patch is applied to copies of the touched
+// files with patch(1); /repo itself is never modified. Informational, like the mutants.
+func runSeeds(c *Ctx) {
+	dirs, _ := filepath.Glob(filepath.Join(c.Root, "seeded", c.Prop+"-s*"))
+	sort.Strings(dirs)
+	if len(dirs) == 0 {
+		return
+	}
+	self, err := os.Executable()
+	if err != nil {
+		return
+	}
+	tmp, err := os.MkdirTemp("", "verif-seed-")
+	if err != nil {
+		return
+	}
+	defer os.RemoveAll(tmp)
+	results := make([]mutantResult, len(dirs))
+	sem := make(chan struct{}, 6)
+	var wg sync.WaitGroup
+	for i, d := range dirs {
+		wg.Add(1)
+		go func(i int, d string) {
+			defer wg.Done()
+			sem <- struct{}{}
+			defer func() { <-sem }()
+			res := mutantResult{ID: filepath.Base(d)}
+			defer func() { results[i] = res }()
+			diff, err := os.ReadFile(filepath.Join(d, "patch.diff"))
+			if err != nil {
+				res.Outcome, res.Detail = "skipped", "no patch.diff"
+				return
+			}
+			work := filepath.Join(tmp, res.ID)
+			var files []string
+			for _, l := range strings.Split(string(diff), "\n") {
+				if strings.HasPrefix(l, "+++ b/") {
+					files = append(files, strings.TrimSpace(strings.TrimPrefix(l, "+++ b/")))
+				}
+			}
+			for _, f := range files {
+				src, err := os.ReadFile(filepath.Join(c.Repo, f))
+				if err != nil {
+					res.Outcome, res.Detail = "skipped", "file missing: "+f
+					return
+				}
+				os.MkdirAll(filepath.Dir(filepath.Join(work, f)), 0o755)
+				os.WriteFile(filepath.Join(work, f), src, 0o644)
+			}
+			cmd := exec.Command("patch", "-p1", "-s", "--no-backup-if-mismatch", "-d", work, "-i", filepath.Join(d, "patch.diff"))
+			if out, err := cmd.CombinedOutput(); err != nil {
+				res.Outcome, res.Detail = "skipped", "patch does not apply to the current tree: "+strings.TrimSpace(string(out))
+				return
+			}
+			ovm := map[string]string{}
+			for _, f := range files {
+				ovm[filepath.Join(c.Repo, f)] = filepath.Join(work, f)
+			}
+			ov := filepath.Join(tmp, res.ID+".overlay.json")
+			ob, _ := json.Marshal(ovm)
+			os.WriteFile(ov, ob, 0o644)
+			run := exec.Command(self, c.Prop, "quick")
+			run.Env = append(os.Environ(), "VERIF_OVERLAY="+ov, "VERIF_NO_EVIDENCE=1", "VERIF_NO_MUTANTS=1", "VERIF_REPLAY_DIR="+tmp)
+			o, _ := run.CombinedOutput()
+			if strings.Contains(string(o), "VIOLATION property=") {
+				res.Outcome = "reported"
+				for _, l := range strings.Split(string(o), "\n") {
+					t := strings.TrimSpace(l)
+					if strings.HasPrefix(t, "VIOLATION C") || strings.HasPrefix(t, "UNDECIDED") {
+						if k := strings.Index(t, ":"); k > 0 {
+							res.Expect = strings.TrimPrefix(strings.TrimPrefix(t[:k], "VIOLATION "), "UNDECIDED ")
+						}
+						break
+					}
+				}
+			} else {
+				res.Outcome = "not-reported"
+			}
+		}(i, d)
+	}
+	wg.Wait()
+	rep := 0
+	for _, r := range results {
+		if r.Outcome == "reported" {
+			rep++
+		}
+	}
+	c.Extra["seeded_changes"] = map[string]any{"total": len(dirs), "reported": rep, "results": results,
+		"note": "breaking changes produced by independent sub-agents and confirmed by demonstration (seeded/<id>/), replayed through the overlay; informational"}
+	if !c.Quiet {
+		fmt.Printf("%s self-validation: %d/%d confirmed seeded breaking changes reported\n", c.Prop, rep, len(dirs))
+		for _, r := range results {
+			if r.Outcome != "reported" {
+				fmt.Printf("   seed %s: %s %s\n", r.ID, r.Outcome, r.Detail)
+			}
+		}
+	}
+}
+
 func runOneMutant(c *Ctx, self, tmp string, m mutant) mutantResult {
 	res := mutantResult{ID: m.ID, Expect: m.Expect}
 	abs := filepath.Join(c.Repo, m.File)
@@ -386,4 +494,61 @@ func renameAllLocals(src string, names []string) (string, error) {
 		b = append(b[:off], append([]byte("_r"), b[off:]...)...)
 	}
 	return string(b), nil
+}
+
+// swapComparisons mirrors every comparison whose operands are side-effect free (identifiers, selectors, literals,
+// index expressions, len/cap calls): `a == b` becomes `b == a`, `a < b` becomes `b > a`. Behaviour is unchanged.
+func swapComparisons(src string) (string, error) {
+	fset := token.NewFileSet()
+	file, err := parser.ParseFile(fset, "x.go", src, parser.ParseComments)
+	if err != nil {
+		return "", err
+	}
+	var simple func(e ast.Expr) bool
+	simple = func(e ast.Expr) bool {
+		switch x := e.(type) {
+		case *ast.Ident, *ast.BasicLit:
+			return true
+		case *ast.SelectorExpr:
+			return simple(x.X)
+		case *ast.ParenExpr:
+			return simple(x.X)
+		case *ast.IndexExpr:
+			return simple(x.X) && simple(x.Index)
+		case *ast.StarExpr:
+			return simple(x.X)
+		case *ast.CallExpr:
+			if id, ok := x.Fun.(*ast.Ident); ok && (id.Name == "len" || id.Name == "cap") && len(x.Args) == 1 {
+				return simple(x.Args[0])
+			}
+		}
+		return false
+	}
+	mirror := map[token.Token]token.Token{token.EQL: token.EQL, token.NEQ: token.NEQ, token.LSS: token.GTR, token.GTR: token.LSS, token.LEQ: token.GEQ, token.GEQ: token.LEQ}
+	type edit struct {
+		from, to int
+		text     string
+	}
+	var edits []edit
+	ast.Inspect(file, func(n ast.Node) bool {
+		be, ok := n.(*ast.BinaryExpr)
+		if !ok {
+			return true
+		}
+		m, isCmp := mirror[be.Op]
+		if !isCmp || !simple(be.X) || !simple(be.Y) {
+			return true
+		}
+		// untyped constant on the left of a comparison with a typed operand is fine in Go; nil on the left too
+		a, b := fset.Position(be.X.Pos()).Offset, fset.Position(be.X.End()).Offset
+		c, d := fset.Position(be.Y.Pos()).Offset, fset.Position(be.Y.End()).Offset
+		edits = append(edits, edit{a, d, src[c:d] + " " + m.String() + " " + src[a:b]})
+		return false // do not descend: nested edits would overlap
+	})
+	sort.Slice(edits, func(i, j int) bool { return edits[i].from > edits[j].from })
+	out := src
+	for _, e := range edits {
+		out = out[:e.from] + e.text + out[e.to:]
+	}
+	return out, nil
 }
